@@ -271,6 +271,132 @@ class BatchRunner:
         self.lines, self.meta = [], []
 
 
+class PState:
+    """One node of a BProg program: how to build the library object, its dense value, the driver words, capability flags."""
+    def __init__(self, build, dense, words, desc, sumok, prodok):
+        self.build, self.dense, self.words, self.desc, self.sumok, self.prodok = build, dense, words, desc, sumok, prodok
+
+
+def prog_step(rng, st, kinds):
+    """Apply one seed-chosen batch rewrite (of a kind in `kinds` that is applicable) to a program state; returns (tag, new state)."""
+    B = tuple(st.dense.shape[:-2])
+    nb = len(B)
+    m, k = st.dense.shape[-2:]
+    ok = [x for x in kinds if x in ("unsq", "expand") or (x == "perm" and nb >= 2) or (x == "sum" and nb >= 1 and st.sumok)
+          or (x == "prod" and nb >= 1 and st.prodok)]
+    kind = rng.choice(ok)
+    b0 = st.build
+    if kind == "unsq":
+        d = rng.randrange(nb + 1)
+        return kind, PState(lambda: b0().unsqueeze(d), st.dense.unsqueeze(d), f"RU {d} {st.words}", f"unsqueeze{d}({st.desc})",
+                            st.sumok, st.prodok)
+    if kind == "perm":
+        perm = list(range(nb))
+        while perm == list(range(nb)):
+            rng.shuffle(perm)
+        return kind, PState(lambda: b0().permute(*perm, nb, nb + 1), st.dense.permute(*perm, nb, nb + 1),
+                            f"RP {shp(perm)} {st.words}", f"permute{perm}({st.desc})", st.sumok, st.prodok)
+    if kind == "expand":
+        S = tuple(rng.choice((2, 3)) if (s == 1 and rng.random() < 0.7) else s for s in B)
+        if S == B or rng.random() < 0.5:
+            S = (2,) + S
+        return kind, PState(lambda: b0()._expand_batch(torch.Size(S)), st.dense.expand(*S, m, k), f"RE {shp(S)} {st.words}",
+                            f"_expand_batch{list(S)}({st.desc})", st.sumok, st.prodok)
+    d = rng.randrange(nb)
+    if kind == "sum":
+        return kind, PState(lambda: b0().sum(d), st.dense.sum(d), f"RS {d} {st.words}", f"sum{d}({st.desc})", st.sumok, st.prodok)
+    return kind, PState(lambda: b0().prod(d), st.dense.prod(d), f"RX {d} {st.words}", f"prod{d}({st.desc})", st.sumok, st.prodok)
+
+
+def prog_binary(op, x, y):
+    """`x op y` as a program state, or None unless the library takes the base-class branch (`MatmulLinearOperator(self, other)` /
+    `SumLinearOperator(self, other)`: the constructors `mkMatmul` / `mkSum2` model)."""
+    from .c02 import is_op
+    f = (lambda u, v: u @ v) if op == "matmul" else (lambda u, v: u + v)
+    try:
+        xo, yo = x.build(), y.build()
+        res = f(xo, yo)
+        dres = f(x.dense, y.dense)
+    except Exception:
+        return None
+    want = "MatmulLinearOperator" if op == "matmul" else "SumLinearOperator"
+    if not is_op(res) or type(res).__name__ != want or type(xo).__name__ == "SumLinearOperator" and op == "add":
+        return None
+    parts = (res.left_linear_op, res.right_linear_op) if op == "matmul" else tuple(res.linear_ops)
+    if [type(q).__name__ for q in parts] != [type(xo).__name__, type(yo).__name__]:
+        return None
+    bx, by = x.build, y.build
+    return PState(lambda: f(bx(), by()), dres, f"{'M' if op == 'matmul' else 'A'} {x.words} {y.words}",
+                  f"({x.desc} {op} {y.desc})", False, False)
+
+
+def leaf_state(it):
+    try:
+        w = "L " + benc(it.build())
+    except NotEncodable:
+        return None
+    return PState(it.build, it.dense, w, f"{it.name}{list(it.shape[:-2])}", it.override and not it.zero,
+                  it.name in ("Dense", "Dense<rect>", "Diag", "ConstantDiag", "Identity"))
+
+
+def run_prog(chk, R, thorough, shapes, get):
+    """(e) seed-random programs of `BProg` (LinOp/C02/BProg.lean): the model evaluator `beval` — the function `beval_refines_partial`
+    is about — vs the library vs dense torch.  chain: leaf, three rewrites; bin: (a op b) of mixed batch ranks, two rewrites, then
+    (for `@`) a second broadcasting op with a fresh leaf and one more rewrite."""
+    rng = random.Random(f"{PID}:batchm-prog:{chk.seed}")
+    reps = 1 if not thorough else 4
+    def emit(form, cellmid, st, payload):
+        R.case(f"C02/batchm/prog/{form}/{cellmid}", f"prog {st.desc}", st.build, lambda: st.dense, "prog " + st.words, payload, "prog-" + form)
+    for B in shapes:
+        for it in insts(rng, B):
+            if it.zero:
+                continue
+            for _ in range(reps):
+                st = leaf_state(it)
+                if st is None:
+                    continue
+                tags = []
+                for _k in range(3):
+                    t, st = prog_step(rng, st, ("unsq", "perm", "expand", "sum", "prod"))
+                    tags.append(t)
+                emit("chain", f"{it.name}/{'-'.join(tags)}/b={len(B)}{'+1' if 1 in B else ''}", st,
+                     {"part": "batchm", "sub": "prog"})
+    kinds = list(MIX)
+    for kind in kinds:
+        ba, bb = MIX[kind]
+        for a in get(ba):
+            for b in get(bb):
+                if a.zero or b.zero:
+                    continue
+                for op in ("matmul", "add"):
+                    if not thorough:
+                        h = zlib.crc32(f"prog|{a.name}|{b.name}|{op}".encode())
+                        sel = (h + chk.seed) % (3 * len(kinds))   # quick: each (a, b, op) runs with one kind, for 1 seed in 3
+                        if sel >= len(kinds) or kinds[sel] != kind:
+                            continue
+                    elif (zlib.crc32(f"prog|{a.name}|{b.name}|{op}".encode()) + chk.seed) % 3 != kinds.index(kind) % 3:
+                        continue   # thorough: two of the six batch kinds per (a, b, op) (a nested lazy product costs ~0.17 s in the driver)
+                    la, lb = leaf_state(a), leaf_state(b)
+                    if la is None or lb is None:
+                        continue
+                    st = prog_binary(op, la, lb)
+                    if st is None:
+                        continue
+                    tags = []
+                    for _k in range(2):
+                        t, st = prog_step(rng, st, ("unsq", "perm", "expand"))
+                        tags.append(t)
+                    if op == "matmul":
+                        c = rng.choice([x for x in get((2,)) if x.name in ("Dense", "Toeplitz", "Matmul(Dense,Diag)", "ConstantMul0d(Dense)")])
+                        lc = leaf_state(c)
+                        op2 = rng.choice(("matmul", "add"))
+                        st2 = prog_binary(op2, st, lc) if lc is not None else None
+                        if st2 is not None:
+                            t, st = prog_step(rng, st2, ("unsq", "perm", "expand"))
+                            tags += [op2 + ":" + c.name, t]
+                    emit("bin", f"{op}/{a.name}/{b.name}/b={kind}/{'-'.join(tags)}", st, {"part": "batchm", "sub": "prog"})
+
+
 def mul_kind_of_library(bs, osh):
     """Which branch `LinearOperator.mul` takes for a tensor of shape `osh` (probe subclass records the private call)."""
     from linear_operator.operators import DenseLinearOperator
@@ -403,6 +529,8 @@ def run_batchm(chk, thorough):
                     line = None   # a ConstantMul keeping a constant of LOWER batch rank is outside `BOp.uniform` (impl vs dense only)
                 R.case(cell, f"{it.name}{list(B)} * const[{cname}]", lambda it=it, cten=cten: it.build() * cten.clone(),
                        lambda it=it, cten=cten: it.dense * cten, line, payload, "mul")
+    # ---- (e) seed-random programs run by `beval`
+    run_prog(chk, R, thorough, shapes, get)
     R.flush()
     # ---- (d) the front-end tests of `LinearOperator.mul` (which private method a tensor argument reaches)
     combos = []
